@@ -367,7 +367,59 @@ def analyse_two_in_one_process(tier):
     return res
 
 
+def analyse_example_command(tier):
+    """`naunet example --dry`: the option strings the example command hands to `naunet init` carry exactly the values of
+    the bundled example module (binding energies, yields, shielding tables, element lists) -- ground comparison"""
+    import shlex
+    import subprocess
+    import tempfile
+
+    from ..paths import child_env
+
+    res = {"case": "example-command", "ok": [], "unknown": [], "viol": [], "errors": [], "notes": [], "samples": [], "solver_s": 0.0, "programs": 0, "functions": ["ExampleCommand.handle (option strings)"]}
+    order = ["empty"] * 4 + ["minimal"] * 4 + ["primordial"] * 4 + ["deuterium"] * 4 + ["cloud"] * 3 + ["ism"] * 3
+    for sel in (4, 8, 12, 16, 19):
+        name = order[sel]
+        work = tempfile.mkdtemp(prefix="naunet-verif-exdry-")
+        try:
+            env = dict(os.environ, TQDM_DISABLE="1")
+            child_env(env)
+            r = subprocess.run([proj.PY, "-c", "import sys; from naunet.console import main; sys.exit(main())", "example", "--dry", f"--select={sel}"], capture_output=True, text=True, cwd=work, env=env, timeout=300)
+            line = next((l for l in r.stdout.splitlines() if l.startswith("naunet init")), None)
+            if line is None:
+                res["unknown"].append((f"example:{name}", f"no init command printed: {(r.stderr or r.stdout)[-200:]}"))
+                continue
+            opts = {}
+            for tok in shlex.split(line)[2:]:
+                if tok.startswith("--") and "=" in tok:
+                    k, v = tok[2:].split("=", 1)
+                    opts.setdefault(k, []).append(v)
+            req = example_request(name)
+            kv = lambda txt, sep: {a.strip(): b.strip() for a, b in (x.split(sep, 1) for x in txt.split(",") if x.strip())}
+            got_b = {k: float(v) for k, v in kv(opts.get("binding", [""])[0], "=").items()}
+            got_y = {k: float(v) for k, v in kv(opts.get("yield", [""])[0], "=").items()}
+            got_s = kv(opts.get("shielding", [""])[0], ":")
+            checks = [("binding", got_b, {k: float(v) for k, v in req["binding"].items()}), ("yield", got_y, {k: float(v) for k, v in req["yields"].items()}), ("shielding", got_s, dict(req["shielding"])),
+                      ("elements", [x.strip() for x in opts.get("elements", [""])[0].split(",") if x.strip()], list(req["elements"])),
+                      ("pseudo-elements", [x.strip() for x in opts.get("pseudo-elements", [""])[0].split(",") if x.strip()], list(req["pseudo_elements"]))]
+            for what, got, want in checks:
+                nm = f"example:{name}:{what}"
+                if got == want:
+                    res["ok"].append(nm)
+                else:
+                    diff = {k: (want.get(k), got.get(k)) for k in set(want) | set(got) if want.get(k) != got.get(k)} if isinstance(want, dict) else {"want": want, "got": got}
+                    res["viol"].append({"key": nm, "what": f"`naunet example` hands `naunet init` a {what} option that differs from the example's own table: {dict(list(diff.items())[:4])}", "replay": {"select": sel, "example": name, "difference": {str(k): str(v) for k, v in list(diff.items())[:20]}, "command": line[:3000]}})
+        except Exception as e:
+            res["errors"].append(f"example:{name}: {type(e).__name__}: {e}")
+        finally:
+            import shutil
+            shutil.rmtree(work, ignore_errors=True)
+    return res
+
+
 def _work_inner(a):
+    if a[0] == "example-command":
+        return analyse_example_command(a[1])
     if a[0] == "two-init":
         return analyse_two_in_one_process(a[1])
     if a[0].startswith("export:"):
@@ -390,7 +442,7 @@ def main(pid, tier):
     names = list(CASES) + (list(THOROUGH) if tier == "thorough" else [])
     ctx = mp.get_context("fork")
     with cf.ProcessPoolExecutor(max_workers=10, mp_context=ctx) as ex:
-        results = list(ex.map(_work, [(n, tier) for n in names] + [(f"export:{t}", tier) for t in ("dense", "sparse", "odeint")] + [("two-init", tier)]))
+        results = list(ex.map(_work, [(n, tier) for n in names] + [(f"export:{t}", tier) for t in ("dense", "sparse", "odeint")] + [("two-init", tier), ("example-command", tier)]))
     for r in results:
         chk.programs += r["programs"]
         chk.solver_s += r["solver_s"]
